@@ -1209,6 +1209,9 @@ def run(run):
         for ck in gen(run, E):
             fails += ck.failed
     finish_engine(E, run)
+    # callee contract of cov_from_unbalanced (residuals around the mean of the observation's own condition)
+    from contracts.common import discharge_unique_inverse
+    fails += discharge_unique_inverse(run, 'C14')
     bfails = tier_b(run, run.tier == 'thorough')
     bds = tier_c(run, run.tier == 'thorough')
     report_a_failures(run, fails + bfails, bds)
